@@ -6,6 +6,10 @@ ALL = ["C%02d" % i for i in range(1, 20)]
 
 # id -> (technique, level text, level note, design ref)
 CLAIMED = {
+ "C05": ("metamorphic comparison of real builds in the three modes (none / complain / enforce) read by an independent header scanner, plus rapid-generated multi-block profiles through the in-process builder chain",
+         "For every (distribution, ABI, version, full) cell - all 30 in thorough, a covering sample of 4 in quick - the shipped tree is built three times with the real binary and every block header of every file is compared across modes: same header apart from flags, flags(complain) = flags(none) + complain, flags(enforce) = flags(none) - complain. Generated files (1-4 blocks, sub-profiles and hats with their own flags, separators ',' and ', ', glued braces, xattrs, quoted names) go through the in-process chain with the same oracle, and their non-header lines must not depend on the mode.",
+         "Trusts the header scanner in c05_test.go (block header = line ending in '{' whose first token is profile, hat or starts with '^'). The none-build is the baseline, so whatever the flags manifests do is taken as given.",
+         "DESIGN.md §2 C05"),
  "C01": ("enumeration of build configurations with the real binary, every built file judged by the reference parser apparmor_parser 3.0.8 (differential against the reference implementation)",
          "The shipped tree is built with the real prebuild binary - all 90 primary configurations in thorough (plus full DFA compilation of 10), a seeded covering sample of 8 in quick - and every top-level policy file of each build is parsed by the reference parser over an overlay of the upstream policy directory and the build output; abstractions, tunables and mappings are exercised through the include closure of the profiles, which is measured and reported. For ABI 4 only the normalisation the property grants is applied.",
          "Trusts apparmor_parser 3.0.8 + the upstream 3.0.8 policy tree as the reference (rule kinds and flags newer than that are unseen, as the property allows); for version 4.1 the five files configure removes are taken from the source tree as stand-ins for upstream 4.1; the ABI-4 normaliser is a line tokenizer in c01_test.go.",
